@@ -75,7 +75,10 @@ chk("C17", "model_checking",
     "TLC exhaustive enumeration of CandFilter.tla replayed into the real filter + TLA+ trace validation of runs", "DESIGN.md 6 C17")
 chk("C18", "model_checking",
     "Every search step of every panel run validated in TLC: the strategy's return is the acquisition argmin over all candidates it generated that survived filtering, "
-    "all inside the mesh-rounded box, hedge probabilities proper, at most one evaluation per search step.",
+    "all inside the mesh-rounded box, hedge probabilities proper, at most one evaluation per search step. Components: ESArchive.tla enumerates per-generation survivor counts "
+    "and acquisition values (populations shrunk to few or zero survivors, 2-3 generations) and each case is replayed into the real ESSearchWM/ESSearchELL through a scripted filter and "
+    "acquisition function; Hedge.tla gives the exact probabilities for every small weight vector, compared with the real ESSearchHedge; TLC evaluates the selection-mask contract on the "
+    "masks produced by the real _get_selection_idx_mask_ for all (mu, lambda) <= 40 (90 thorough) and lambda = 2048.",
     RUN_NOTE, "TLA+ trace validation (TLC) of recorded search-step events of real runs + BadsRun.tla (SearchOneEval)", "DESIGN.md 6 C18")
 chk("C19", "model_checking",
     "Run level: every history record and the result of every panel run validated in TLC against the call log (x evaluated, yval observed there, func_count monotone and exact, "
